@@ -118,13 +118,16 @@ Theorem template_parameters_decode_partial : forall l R,
   Forall tp_ok l -> ev (fun f => tdecl f (tlist_toks l ++ R)) (DOk (l, R)).
 Proof. exact template_params_roundtrip. Qed.
 
-(* An enumerator list `{ A, B = expr, C }` (a trailing ',' allowed): every
-   enumerator is reported once, in order, with exactly the tokens of its value
-   (any token-level expression: brackets nested, '<' '>' free), for lists of any
-   length; what follows the '}' is untouched. *)
+(* An enumerator list `{ A, B [[attr]] alignas(8) = expr, C }` (a trailing ','
+   allowed; any number of attribute groups behind a name, the first a [[ ]]
+   group, each with any nested contents): every enumerator is reported once,
+   in order, with exactly the tokens of its own value (any token-level
+   expression: brackets nested, '<' '>' free) and none where none is written
+   -- never a neighbour's -- for lists of any length; the attributes are
+   dropped; what follows the '}' is untouched. *)
 Theorem enumerators_reported_exactly_partial : forall items tc rest,
-  Forall value_ok items -> (items = [] -> tc = false) ->
-  enum_list (S (length items)) [] (enum_body_toks items tc ++ rest) = DOk (items, rest).
+  Forall wenum_ok items -> (items = [] -> tc = false) ->
+  enum_list (S (length items)) [] (enum_body_toks items tc ++ rest) = DOk (map strip_e items, rest).
 Proof. exact enumerators_roundtrip. Qed.
 
 (* The collecting visitor: the items found in the namespace reached by [path]
@@ -178,7 +181,7 @@ Example c01_place_run :
 Proof. vm_compute. reflexivity. Qed.
 
 Example c01_enum_run :
-  enum_list 3 [] (enum_body_toks [(1, None); (2, Some [mkTk 3 7; mkTk LP 0; mkTk 3 8; mkTk RP 0])] true ++ [ktok SEMI])
+  enum_list 3 [] (enum_body_toks [(1, [ABr [mkTk T_NAME 4]; AAl [mkTk 3 8]], None); (2, [], Some [mkTk 3 7; mkTk LP 0; mkTk 3 8; mkTk RP 0])] true ++ [ktok SEMI])
   = DOk ([(1, None); (2, Some [mkTk 3 7; mkTk LP 0; mkTk 3 8; mkTk RP 0])], [ktok SEMI]).
 Proof. vm_compute. reflexivity. Qed.
 
